@@ -1,41 +1,10 @@
-use fjall::{Database, KeyspaceCreateOptions};
-fn ls(dir: &std::path::Path) -> Vec<String> {
-    let mut v: Vec<String> = std::fs::read_dir(dir).unwrap().map(|e| e.unwrap().file_name().to_string_lossy().to_string()).collect();
-    v.sort();
-    v
-}
+use fjall::Database;
 fn main() {
     let dir = std::path::PathBuf::from("/dev/shm/vprobe");
     let _ = std::fs::remove_dir_all(&dir);
-    {
-        let db = Database::builder(&dir).worker_threads_unchecked(0).open().unwrap();
-        let a = db.keyspace("a", KeyspaceCreateOptions::default).unwrap();
-        a.insert("k", "v1").unwrap();
-        fjall::verif::set_force_journal_rotation(true);
-        a.rotate_memtable().unwrap();
-        while let Ok(Some(m)) = db.verif_step(0) { println!("step {m}"); }
-        fjall::verif::set_force_journal_rotation(false);
-        a.insert("k2", "v2").unwrap();
-        println!("journals {} files {:?}", db.journal_count(), ls(&dir));
-    }
-    println!("after close {:?}", ls(&dir));
-    std::fs::remove_file(dir.join("version")).unwrap();
-    println!("marker removed {:?}", ls(&dir));
+    std::fs::create_dir_all(dir.join("keyspaces")).unwrap();
+    std::fs::write(dir.join("0.jnl"), b"").unwrap();
+    std::fs::write(dir.join("lock"), b"").unwrap();
     let r = Database::builder(&dir).worker_threads_unchecked(0).open();
-    match r {
-        Ok(db) => {
-            println!("OPEN OK (adopted) files {:?} names {:?}", ls(&dir), db.list_keyspace_names());
-            let a = db.keyspace("a", KeyspaceCreateOptions::default);
-            match a { Ok(a) => println!("ks a: id {} k={:?} k2={:?}", a.id(), a.get("k").unwrap(), a.get("k2").unwrap()), Err(e) => println!("ks err {e:?}") }
-        }
-        Err(e) => println!("open refused: {e:?} files {:?}", ls(&dir)),
-    }
-    let r = Database::builder(&dir).worker_threads_unchecked(0).open();
-    match r {
-        Ok(db) => {
-            println!("REOPEN OK names {:?}", db.list_keyspace_names());
-            if let Ok(a) = db.keyspace("a", KeyspaceCreateOptions::default) { println!("ks a: id {} k={:?} k2={:?}", a.id(), a.get("k").unwrap(), a.get("k2").unwrap()); }
-        }
-        Err(e) => println!("reopen refused: {e:?}"),
-    }
+    println!("open with stale 0.jnl: {:?}", r.as_ref().map(|_| ()).map_err(|e| format!("{e:?}")));
 }
